@@ -40,6 +40,7 @@ HARNESSES = [
 ROUTE = {
     "disp": "disp",
     "ppphdr": "ppp", "pppopts": "ppp", "papreq": "ppp", "papmsg": "ppp", "chapchal": "ppp", "chapresp": "ppp", "echo": "ppp",
+    "rtopts": "ppp", "papbld": "ppp", "chapbld": "ppp",
     "tags": "tags",
     "l2hdr": "l2tp", "l2avp": "l2tp", "l2v3": "l2tp",
     "d6msg": "dhcp6", "d6relay": "dhcp6", "d6reply": "dhcp6",
@@ -515,7 +516,10 @@ def gen_cases(rng, tier, budget):
         add(case("pppopts", [], bytes([a, b, c])))
         add(case("papreq", [1], bytes([a, b, c])))
         add(case("sub82", [], bytes([a, b, c])))
-    family(rng, tier, gen_ppp_opts, nv, nm, lambda b: add(case("pppopts", [], b)))
+    family(rng, tier, gen_ppp_opts, nv, nm, lambda b: (add(case("pppopts", [], b)), add(case("rtopts", [], b))))
+    for _ in range(40 * scale):
+        add(case("papbld", [], rb(rng, rng.choice([0, 1, 8, 255, 100])), rb(rng, rng.choice([0, 1, 8, 255, 30]))))
+        add(case("chapbld", [], rb(rng, rng.choice([0, 1, 16, 255, 49])), rb(rng, rng.choice([0, 3, 9]))))
     family(rng, tier, gen_pap, nv, nm, lambda b: (add(case("papreq", [rng.randrange(256)], b)), add(case("sesspap", [rng.randrange(256)], b))))
     family(rng, tier, lambda r: (lambda m: (bytes([len(m)]) + m + rb(r, r.choice([0, 0, 2])), [(0, 1)]))(rb(r, r.choice([0, 1, 10, 30]))),
            nv, nm // 2, lambda b: add(case("papmsg", [rng.randrange(2)], b)))
@@ -540,6 +544,16 @@ def gen_cases(rng, tier, budget):
         for L in list(range(0, 12)) + B16:
             for n in (0, 1, 2, 6, 10):
                 add(case("tags", [], be16(ty) + be16(L) + b"\x00\x00\x0d\xe9\x01\x02ab\x02\x09"[:n]))
+    # vendor-specific sub-option lengths: every (declared, actual) combination around the end of the tag
+    for vid in (0xde9, 9, 0xdea):
+        for st in (1, 2, 3):
+            for actual in range(0, 8):
+                for declared in list(range(0, actual + 4)) + [254, 255]:
+                    v = be32(vid) + bytes([st, declared]) + bytes(range(0x61, 0x61 + actual))
+                    add(case("tags", [], be16(0x0105) + be16(len(v)) + v))
+                    add(case("tags", [], be16(0x0105) + be16(len(v)) + v + be16(0x0101) + be16(1) + b"x"))
+                    v2 = be32(vid) + b"\x01\x02ab" + bytes([st, declared]) + bytes(range(0x61, 0x61 + actual))
+                    add(case("tags", [], be16(0x0105) + be16(len(v2)) + v2))
     family(rng, tier, gen_tags, nv, 2 * nm, lambda b: add(case("tags", [], b)))
 
     # --- L2TP ----------------------------------------------------------------------------------------------------------
@@ -559,6 +573,21 @@ def gen_cases(rng, tier, budget):
     for s in short_strings(tier, False):
         add(case("d6msg", [], s))
         add(case("d6msg", [], b"\x01\x00\x00\x01" + s))
+    # IA_NA / IA_PD sub-options: every declared length around the minimum (24 / 25), as the last sub-option,
+    # followed by more data, and truncated
+    for code, sc in ((3, 5), (25, 26), (3, 26), (25, 5), (3, 13)):
+        for sn in range(0, 34):
+            for extra in (0, 1, 5):
+                sub = be16(sc) + be16(sn) + bytes(range(1, sn + 1))
+                for head in (12, 11, 13):
+                    v = bytes(head) + sub + bytes(extra)
+                    add(case("d6msg", [], b"\x03\x00\x00\x01" + be16(code) + be16(len(v)) + v))
+                v = bytes(12) + sub
+                add(case("d6msg", [], b"\x03\x00\x00\x01" + be16(code) + be16(len(v)) + v + be16(14) + be16(0)))
+    for code in (23, 37, 13, 1, 18, 79, 14):
+        for n in range(0, 36):
+            add(case("d6msg", [], b"\x01\x00\x00\x01" + be16(code) + be16(n) + bytes(range(n))))
+            add(case("d6msg", [], b"\x01\x00\x00\x01" + be16(code) + be16(n + 1) + bytes(range(n))))
     family(rng, tier, gen_d6msg, nv, 2 * nm, lambda b: add(case("d6msg", [], b)))
     family(rng, tier, lambda r: gen_d6relay(r, 12), nv, 2 * nm, lambda b: add(case("d6relay", [], b)))
     family(rng, tier, lambda r: gen_d6relay(r, 13), nv, 2 * nm,
@@ -658,7 +687,9 @@ def nontrivial(case_line, impl):
 def classify(case_line, impl, model):
     e = case_line.split(" ", 1)[0]
     if impl in ("panic", "hang"):
-        return "P", "%s: the call %s on this input (model: %s)" % (e, "panicked" if impl == "panic" else "did not return within 3 s", model[:120])
+        return "P", "%s: the call %s on this input (model: %s)" % (e, "panicked" if impl == "panic" else "did not return within 2 s", model[:120])
+    if impl.startswith("skipped"):
+        return "G", "%s: not run, the harness stopped after three hung calls" % e
     if impl == "badline" or model == "badline":
         return "G", "harness/driver does not know entry %s" % e
     if model in ("panic", "oof"):
